@@ -15,18 +15,18 @@ import (
 type SubmitKind int
 
 const (
-	SubAccept    SubmitKind = iota // all blobs accepted
-	SubPrefix                      // only the first N accepted (fewer ids returned)
-	SubTimeout                     // ErrTxTimedOut
-	SubInMempool                   // ErrTxAlreadyInMempool
-	SubTooBig                      // ErrBlobSizeOverLimit
-	SubDeadline                    // ErrContextDeadline
-	SubGeneric                     // generic error
-	SubAckLost                     // blobs stored, error returned
-	SubBlock                       // block until the caller's context is cancelled
-	SubSeqErr                      // ErrTxIncorrectAccountSequence
-	SubCrashBefore                 // the submitting node dies before the DA layer sees the blobs
-	SubCrashAfter                  // the DA layer stores the blobs, the submitting node dies before the answer
+	SubAccept      SubmitKind = iota // all blobs accepted
+	SubPrefix                        // only the first N accepted (fewer ids returned)
+	SubTimeout                       // ErrTxTimedOut
+	SubInMempool                     // ErrTxAlreadyInMempool
+	SubTooBig                        // ErrBlobSizeOverLimit
+	SubDeadline                      // ErrContextDeadline
+	SubGeneric                       // generic error
+	SubAckLost                       // blobs stored, error returned
+	SubBlock                         // block until the caller's context is cancelled
+	SubSeqErr                        // ErrTxIncorrectAccountSequence
+	SubCrashBefore                   // the submitting node dies before the DA layer sees the blobs
+	SubCrashAfter                    // the DA layer stores the blobs, the submitting node dies before the answer
 	numSubmitKinds
 )
 
@@ -115,6 +115,9 @@ type SimDA struct {
 	// spin guard: a caller that issues thousands of calls without simulated time passing is busy-looping.
 	// Its calls are then parked until its context ends, so that the bubble can quiesce and the harness
 	// can report what the call log shows.
+	// Latency, when non-zero, is slept (simulated time, no lock held) at the start of every call (Engine N).
+	Latency time.Duration
+
 	spinAt    time.Time
 	spinCount int
 	Overrun   bool
@@ -133,9 +136,16 @@ func (d *SimDA) spinGuard(ctx context.Context) {
 	if over {
 		d.Overrun = true
 	}
+	lat := d.Latency
 	d.mu.Unlock()
 	if over {
 		<-ctx.Done()
+	}
+	if lat > 0 {
+		select {
+		case <-time.After(lat):
+		case <-ctx.Done():
+		}
 	}
 }
 
@@ -452,6 +462,7 @@ func (d *SimDA) getIDs(ctx context.Context, by string, epoch int, height uint64)
 }
 
 func (d *SimDA) get(ctx context.Context, by string, epoch int, ids [][]byte) ([][]byte, error) {
+	d.spinGuard(ctx)
 	if err := ctx.Err(); err != nil {
 		return nil, err
 	}
